@@ -19,7 +19,10 @@ for base in ("seeded", "mutants"):
         vl = os.path.join(bd, d, "verify.log")
         if os.path.exists(vl):
             t = open(vl).read()
-            ok_suite = "suite_with_patch_exit=0" in t
+            m = re.search(r"suite_with_patch_exit=(\d+) passed=(\d+) failed=(\d+)", t)
+            # the baseline is the 453 unit tests (nextest does not run doc tests); a run cut by the time limit during
+            # the doc tests still counts when all 453 unit tests passed and nothing failed
+            ok_suite = bool(m) and int(m.group(3)) == 0 and int(m.group(2)) >= 453
             with_fail = bool(re.search(r"demo_with_patch\[[^\]]*\]_exit=(?!0)", t))
             without_ok = bool(re.search(r"demo_without_patch\[[^\]]*\]_exit=0", t))
             ver = "confirmed" if (ok_suite and with_fail and without_ok) else "see verify.log"
